@@ -8,8 +8,10 @@
 (*   dp   |-> << [k |-> "mps"|"sn", ctor |-> "bare"|"model"], ... >>,      *)
 (*   ev   |-> << event, ... >>]                                            *)
 (*  event = [a   |-> "init"|"temp"|"hard"|"gumbel"|"disable"|"train"|      *)
-(*                   "eval"|"fwd"|"alpha"|"load"|"summary"|"export",       *)
-(*           v   |-> argument (init: [hd, gum, dis, t4, smp]; temp: T x    *)
+(*                   "eval"|"fwd"|"alpha"|"load"|"freeze"|"summary"|       *)
+(*                   "export",                                             *)
+(*           v   |-> argument (init: [hd, gum, dis, t4, smp, sel]; freeze: *)
+(*                   the call, see Selection!DoSetSel; temp: T x           *)
 (*                   10^4; hard/gumbel/disable: BOOLEAN; fwd: grad mode    *)
 (*                   (TRUE enabled, FALSE under torch.no_grad());          *)
 (*                   alpha: [wk |-> "copy"|"data"|"optim", al |-> the      *)
@@ -22,7 +24,8 @@
 (*                    t4 |-> T x 10^4,                                     *)
 (*                    al |-> alpha x 10^4 (one vector per channel),        *)
 (*                    th |-> theta_alpha x 10^6 (one vector per channel),  *)
-(*                    nn |-> no entry of theta_alpha is negative] >>,      *)
+(*                    nn |-> no entry of theta_alpha is negative,          *)
+(*                    sl |-> alpha.requires_grad] >>,                      *)
 (*           rep |-> << [dp, slot, idx] >>  what summary() reports (MPS)   *)
 (*                   or export() materialises for a slot of the model:     *)
 (*                   candidate index per channel (SuperNet export: the     *)
@@ -42,7 +45,8 @@ Traces == JsonDeserialize(IOEnv.TRACE_FILE)
 
 VARIABLES tid, verdict
 
-ActionNames == {"init", "temp", "hard", "gumbel", "disable", "train", "eval", "fwd", "alpha", "load", "summary", "export"}
+ActionNames == {"init", "temp", "hard", "gumbel", "disable", "train", "eval", "fwd", "alpha", "load", "freeze", "summary",
+                "export"}
 
 \* property domain: T in [0.05, 20], pairwise gaps >= 0.05 (x 10^4, one unit of rounding slack)
 TMin == 500
@@ -52,7 +56,7 @@ GapMin == 499
 ----------------------------------------------------------------------------
 (* shape guards: nothing below may raise an evaluation error *)
 ObsOK(o) ==
-    /\ o.tr \in BOOLEAN /\ o.hd \in BOOLEAN /\ o.nn \in BOOLEAN
+    /\ o.tr \in BOOLEAN /\ o.hd \in BOOLEAN /\ o.nn \in BOOLEAN /\ o.sl \in BOOLEAN
     /\ o.sp \in {"sm", "gs", "none"}
     /\ o.t4 \in TMin..TMax
     /\ Len(o.al) >= 1 /\ Len(o.th) = Len(o.al)
@@ -72,6 +76,7 @@ EventOK(t, i) ==
     /\ (i > 1 => \A d \in DOMAIN e.o : Len(e.o[d].al) = Len(t.ev[i - 1].o[d].al))
     /\ \A k \in DOMAIN e.rep : e.rep[k].dp \in DOMAIN t.dp
     /\ (e.a = "fwd" => e.v \in BOOLEAN)
+    /\ (e.a = "freeze" => e.v \in SelHowsAll)
     /\ (e.a = "alpha" => e.v.wk \in WriteKinds /\ Len(e.v.al) = Len(t.dp))
     /\ (e.a = "load" => Len(e.v.al) = Len(t.dp) /\ Len(e.v.th) = Len(t.dp) /\ Len(e.v.t4) = Len(t.dp))
 
@@ -105,10 +110,10 @@ Abstract(p, h) ==
     [rank |-> p.al, hard |-> p.hd, gum |-> h.gum, dis |-> h.dis, sampler |-> p.sp, training |-> p.tr, temp |-> p.t4,
      \* a combiner that has never sampled keeps theta_alpha aliased to alpha: nothing is predicted for it
      theta |-> [c \in DOMAIN p.al |-> IF h.smp THEN Keep ELSE Unsampled],
-     fresh |-> FALSE, sampled |-> h.smp, lastinf |-> FALSE, skip |-> FALSE]
+     fresh |-> FALSE, sampled |-> h.smp, lastinf |-> FALSE, skip |-> FALSE, sel |-> p.sl]
 
 StepOne(k, ctor, var, s, e, o, d) ==
-    CASE e.a = "init"    -> InitState(k, var.im, var.opt, ctor, o.al, e.v.hd, e.v.gum, e.v.dis, e.v.t4)
+    CASE e.a = "init"    -> InitState(k, var.im, var.opt, ctor, o.al, e.v.hd, e.v.gum, e.v.dis, e.v.t4, e.v.sel)
       [] e.a = "temp"    -> DoOption(k, var.im, var.opt, s, "temp", e.v)
       [] e.a = "hard"    -> DoOption(k, var.im, var.opt, s, "hard", e.v)
       [] e.a = "gumbel"  -> DoOption(k, var.im, var.opt, s, "gumbel", e.v)
@@ -118,13 +123,14 @@ StepOne(k, ctor, var, s, e, o, d) ==
       [] e.a = "fwd"     -> DoForward(k, var.im, s, e.v)
       [] e.a = "alpha"   -> DoSetAlpha(var.im, s, e.v.al[d], e.v.wk)
       [] e.a = "load"    -> DoLoad(k, var.im, s, e.v.al[d], [c \in DOMAIN e.v.al[d] |-> Loaded], e.v.t4[d])
+      [] e.a = "freeze"  -> DoSetSel(s, e.v)
       [] e.a = "summary" -> DoSummary(k, var.im, s)
       [] e.a = "export"  -> DoExport(k, var.im, ctor, s)
       [] OTHER           -> s
 
 \* does the observation o (previous observation p, checkpoint vectors ck) agree with the model state s after the event
 Agrees(o, p, ck, s) ==
-    /\ o.tr = s.training /\ o.hd = s.hard /\ o.sp = s.sampler /\ o.t4 = s.temp
+    /\ o.tr = s.training /\ o.hd = s.hard /\ o.sp = s.sampler /\ o.t4 = s.temp /\ o.sl = s.sel
     /\ o.al = s.rank
     /\ \A c \in DOMAIN o.th :
           CASE s.theta[c] = Keep   -> o.th[c] = p.th[c]
@@ -148,9 +154,9 @@ DriftOf(t, i, hs) ==
                  m == Predicted(t, i, d, hs, Variants[1])
              IN  "drift:event " \o ToString(i) \o " (" \o e.a \o ") decision point " \o ToString(d)
                     \o ": observed " \o ToString([tr |-> e.o[d].tr, hd |-> e.o[d].hd, sp |-> e.o[d].sp, t4 |-> e.o[d].t4,
-                                                  th |-> e.o[d].th])
+                                                  sl |-> e.o[d].sl, th |-> e.o[d].th])
                     \o " model " \o ToString([tr |-> m.training, hd |-> m.hard, sp |-> m.sampler, t4 |-> m.temp,
-                                              theta |-> m.theta])
+                                              sl |-> m.sel, theta |-> m.theta])
         ELSE ""
 
 \* history after the event
@@ -177,7 +183,7 @@ Known(id, m)  == [lvl |-> "known", id |-> id, msg |-> m]
 
 Where(i, e, d, c) == "event " \o ToString(i) \o " (" \o e.a \o ") decision point " \o ToString(d)
                         \o " channel " \o ToString(c) \o ": "
-Flags(o) == ToString([training |-> o.tr, hard |-> o.hd, sampler |-> o.sp, T4 |-> o.t4])
+Flags(o) == ToString([training |-> o.tr, hard |-> o.hd, sampler |-> o.sp, T4 |-> o.t4, trainable |-> o.sl])
 
 \* one channel of one decision point after a sampling step (forward pass / constructor of a quantiser)
 SampledClause(t, i, e, d, c) ==
